@@ -196,7 +196,20 @@ def generate(r, tier, index):
     route = r.choice(['text', 'files', 'include_top', 'include_key', 'multidoc'])
     # history: an earlier build of a similar config (other leaf values, dangling targets present) evaluated with the same context object
     prior = r.random() < 0.25
+    if not prior and r.random() < 0.15:
+        prior = 'reeval'      # the tree itself is evaluated, then changed in place (top-level leaves replaced), then evaluated again
     return {'struct': root, 'mode': mode, 'assign': assign, 'n_stage': n_stage, 'route': route, 'tag': r.choice(['!xref', '!ref']), 'prior': prior}
+
+
+def _reeval_struct(root):
+    """The structure after the in-place change of a 'reeval' history: every top-level leaf holds a new value."""
+    st = copy.deepcopy(root)
+    changed = []
+    for k, v in st['items']:
+        if v['t'] == 'leaf':
+            v['v'] = f'value-of-{k}-after-the-change'
+            changed.append(k)
+    return st, changed
 
 
 def _prior_struct(root):
@@ -387,7 +400,7 @@ def _child(sc):
     def client():
         from awesomeyaml import EvalContext
         ctx = None
-        if sc.get('prior'):
+        if sc.get('prior') is True:
             ctx = EvalContext()
             sched.begin_op('prior_build', budget_for(sc))
             try:
@@ -408,7 +421,18 @@ def _child(sc):
                     b.add_source(src['path'], raw_yaml=False)
                 else:
                     b.add_source(src['text'], raw_yaml=True)
-            cfg = Config(b.build()) if ctx is None else Config(b.build(), eval_ctx=ctx)
+            if sc.get('prior') == 'reeval':
+                tree = b.build()
+                try:
+                    EvalContext().evaluate(tree)
+                    out['prior'] = 'ok'
+                except errors.Error as e:
+                    out['prior'] = 'error:' + type(e).__name__
+                for k in _reeval_struct(sc['struct'])[1]:
+                    tree[k] = f'value-of-{k}-after-the-change'
+                cfg = EvalContext().evaluate(tree)
+            else:
+                cfg = Config(b.build()) if ctx is None else Config(b.build(), eval_ctx=ctx)
             out['status'] = 'ok'
             out['cfg'] = cfg
         except sched.SimTimeout:
@@ -424,9 +448,10 @@ def _child(sc):
     sc_.run([client])
     res = {'status': out['status'], 'lines': out['lines'], 'liveness': sc_.liveness, 'exc': out.get('exc'),
            'is_eval_error': out.get('is_eval_error'), 'is_ay_error': out.get('is_ay_error'), 'opens': len(fs.opened_ok()), 'prior': out.get('prior')}
+    struct = _reeval_struct(sc['struct'])[0] if sc.get('prior') == 'reeval' else sc['struct']
     if out['status'] == 'ok':
         cfg = out['cfg']
-        bad, final = model(sc['struct'])
+        bad, final = model(struct)
         ident, vals = [], []
         checked = 0
         for key, tgt in sorted(final.items()):
@@ -444,7 +469,7 @@ def _child(sc):
         for p in paths:
             if kinds[tuple(p)] == 'leaf':
                 o, ok = _navigate(cfg, p, sc['struct'], rec_objs)
-                want = _get(sc['struct'], p)['v']
+                want = _get(struct, p)['v']
                 if ok and (o != want or type(o) is not type(want)):
                     vals.append([_path_text(p), repr(o), repr(want)])
         res['identity_failures'] = ident
@@ -472,7 +497,7 @@ def execute(sc):
     st.setdefault('outcomes', {})[v['status'] + ':' + (bad or 'acyclic')] = 1
     st.setdefault('probes', {})['max_op_lines'] = v['lines']
     if v.get('prior'):
-        st.setdefault('faults', {})['earlier_build_same_context:' + v['prior'].split(':')[0]] = 1
+        st.setdefault('faults', {})[('tree_evaluated_changed_evaluated_again:' if sc.get('prior') == 'reeval' else 'earlier_build_same_context:') + v['prior'].split(':')[0]] = 1
     chain_len = max([0] + [int(k[1:]) + 1 for k, _ in sc['struct']['items'] if k.startswith('c') and k[1:].isdigit()])
     into_container = any(len(t) > 1 for t in final.values())
     if bad or chain_len >= 2 or into_container:
